@@ -919,6 +919,73 @@ func main() {
 		for _, ex := range []string{"default", "sync", "spawn"} {
 			r.Conc("apply-family/"+ex, -1, applyScenario(ex)).Shard = true
 		}
+		// fan-out on one pending source at FULL load/CAS granularity (no SilentLoads/ReadsCommute):
+		// k derived futures are registered on b sequentially, then two more are registered from
+		// concurrently running callback tasks (FlatMap over already completed futures whose
+		// continuation maps b), then b is completed. Every derived future must complete exactly
+		// once with b's value. This is the promise callback list as the combinators use it.
+		for _, k := range []int{0, 1, 3} {
+			k := k
+			sc := r.Conc(fmt.Sprintf("fanout/k%d", k), -1, func(x *mc.X) {
+				b := fp.NewPromise[int]()
+				var derived []F
+				for i := 0; i < k; i++ {
+					derived = append(derived, future.Map(b.Future(), func(v int) int { return v + 100 }))
+				}
+				for i := 0; i < 2; i++ {
+					i := i
+					derived = append(derived, future.FlatMap(future.Successful(i), func(v int) F {
+						return future.Map(b.Future(), func(w int) int { return w + v })
+					}))
+				}
+				// only the two registering callback tasks run concurrently here
+				if blocked := x.AwaitQuiescence(); len(blocked) > 0 {
+					x.Fail("fanout/blocked", "threads blocked: %v", blocked)
+				}
+				fail := x.Bool("source fails")
+				if fail {
+					b.Failure(srcErr[0])
+				} else {
+					b.Success(7)
+				}
+				blocked := x.AwaitQuiescence()
+				if x.HasFailed() {
+					return
+				}
+				if len(blocked) > 0 {
+					x.Fail("fanout/blocked", "threads blocked: %v", blocked)
+				}
+				for i, d := range derived {
+					var done bool
+					var got tri
+					x.NoPoints(func() {
+						done = d.IsCompleted()
+						if done {
+							got = fromTry(d.Value())
+						}
+					})
+					if !done {
+						x.Fail("fanout/never-completes", "derived future %d of %d on a shared source never completed although the source did (k=%d already registered dependants)", i, len(derived), k)
+					}
+					want := succ(7 + 100)
+					if i >= k {
+						want = succ(7 + (i - k))
+					}
+					if fail {
+						want = tri{err: srcErr[0]}
+					}
+					if !same(got, want) {
+						x.Fail("fanout/wrong-value", "derived future %d holds %s, want %s", i, got, want)
+					}
+				}
+				if x.Interacted() {
+					x.NonTrivial()
+				}
+				x.Observe(k, fail)
+			})
+			sc.Shard = true
+			sc.SplitDepth = 4
+		}
 		var names []string
 		for _, k := range ks {
 			names = append(names, k.name)
